@@ -110,7 +110,12 @@ def gen_state_seq(rng, tier):
             tgt = rng.choice(move_pool)
             ops.append(["move", rng.randrange(2), rng.randrange(64), rng.choice(["element", "column", "shared"]), repr(tgt[0]), repr(tgt[1])])
             ops.append([rng.choice(["sc", "sep", "smc", "df", "smc"]), None, "list", dict(retbins=False, with_datetime=False), ops[-1][1]])
-        elif k < 0.40:
+        elif k < 0.38:
+            # (i) a call on the catalog that the library rejects, caught by the caller; the legal calls after it are judged as usual
+            ops.append(["reject", rng.randrange(2), rng.choice(["filter-bad-operator", "filter-good-then-bad", "mc-bins-int", "smc-bins-str",
+                                                                 "filter-no-statement"])])
+            ops.append([rng.choice(["sc", "smc", "mc", "df"]), None, "list", dict(retbins=False, with_datetime=False), ops[-1][1]])
+        elif k < 0.46:
             g = rng.choice(grids)
             ops.append(["filter", rng.randrange(2), repr(rng.choice(g + [g[0] - 1.0, g[-1] + 50.0]))])
         else:
@@ -278,6 +283,25 @@ def state_seq_case(run, drv, pending, case):
                     return
                 cur[ci][j] = (nlon, nlat, cur[ci][j][2])
                 segments.append(None)
+            continue
+        if op == "reject":
+            ci, what = op_[1], op_[2]
+            try:
+                c_ = catobjs[ci]
+                if what == "filter-bad-operator":
+                    c_.filter("magnitude >> 4.0")
+                elif what == "filter-good-then-bad":
+                    c_.filter(["magnitude >= -1000.0", "nonsense_column > 1"])
+                elif what == "mc-bins-int":
+                    c_.magnitude_counts(mag_bins=5)
+                elif what == "smc-bins-str":
+                    c_.spatial_magnitude_counts(mag_bins="abc")
+                else:
+                    c_.filter()
+                run.count(f"stateseq:rejected-call:{what}:accepted")
+            except Exception as ex:
+                run.count(f"stateseq:rejected-call:{what}:{type(ex).__name__}")
+            segments.append(None)
             continue
         if op == "filter":
             ci, thr = op_[1], float(op_[2])
@@ -648,7 +672,9 @@ def gen_expected_case(rng, tier):
     if rng.random() < 0.35:
         thr = repr(rng.choice(edges + [edges[0] - 1.0]))
     return dict(where, edges=[repr(x) for x in edges], catalogs=out, source=rng.choice(["list", "list", "generator", "generator-nostore"]),
-                bind_other=rng.random() < 0.3, filter_thr=thr)
+                bind_other=rng.random() < 0.3, filter_thr=thr,
+                # round 7: (l) ONE catalog object is member of the forecast twice; (h) the forecast's region is used through a copy
+                two_roles=rng.random() < 0.15, region_copy=rng.choice([None, None, None, "copy", "deepcopy", "pickle"]))
 
 
 @_guarded
@@ -682,7 +708,15 @@ def expected_case(run, drv, pending, case):
     if case.get("bind_other"):
         other = CartesianGrid2D.from_origins(numpy.array([[0.0, 0.0], [1.0, 0.0], [0.0, 1.0], [1.0, 1.0]]), dh=1.0,
                                              magnitudes=numpy.array([1.0, 2.0]))
+    if case.get("region_copy"):
+        r2 = base.copy_obj(region, case["region_copy"])
+        run.count(f"expected:region-copy:{case['region_copy']}:{'ok' if r2 is not None else 'unsupported-by-the-tree'}")
+        region = region if r2 is None else r2
     cats = [base._cat(other, evs) for evs in catevs]
+    if case.get("two_roles") and cats:
+        cats.append(cats[0])                       # the same catalog OBJECT a second time: its events count twice
+        catevs = list(catevs) + [catevs[0]]
+        run.count("expected:one-catalog-object-twice")
     ncat = len(cats)
     fkw = {}
     thr = case.get("filter_thr")
